@@ -679,3 +679,54 @@ def cli_tls(tls_bin):
         import shutil
         shutil.rmtree(d, ignore_errors=True)
     return out
+
+
+# ------------------------------------------------------------------ ping_timeout / pong_timeout each govern their own interval
+def timing_probe(binary, hooks):
+    """"ping_timeout: time between PINGs", "pong_timeout: maximal time between PING and PONG": a silent client under
+    (3, 1) and under (1, 3); the two settings must be told apart by the intervals they produce"""
+    import threading
+    from . import clock
+    out = []
+    lag = clock.Lag()
+    lag.start()
+
+    def one(P, Q, res):
+        try:
+            with sut.Server(binary, dict(ping_timeout=P, pong_timeout=Q), hooks=hooks) as srv:
+                c = wire.Client(srv.port, timeout=P + Q + 6.0)
+                c.keep_transcript = False
+                c.register("tp%d%d" % (P, Q), "tp")
+                t0 = time.monotonic()
+                c.read_until(lambda m: m.verb == "PING", P + 4.0)
+                t1 = time.monotonic()
+                rest, kind = c.read_to_eof(Q + 5.0)
+                t2 = time.monotonic()
+                res.append((P, Q, t1 - t0, (t2 - t1) if kind else None))
+                c.close()
+        except (wire.Closed, wire.Timeout, OSError, RuntimeError) as ex:
+            res.append((P, Q, None, repr(ex)))
+    rs = []
+    ths = [threading.Thread(target=one, args=(P, Q, rs)) for P, Q in ((3, 1), (1, 3))]
+    for t in ths:
+        t.start()
+    for t in ths:
+        t.join(30.0)
+    lag.stop = True
+    slack = 1.2 + lag.max_lag
+    for P, Q, first_ping, drop in rs:
+        if first_ping is None:
+            out.append(("inconclusive", "timing probe (%d,%d): %s" % (P, Q, drop)))
+            continue
+        if not (P - 0.6 <= first_ping <= P + slack):
+            out.append(("ping_timeout", "ping_timeout=%d pong_timeout=%d: the first PING came %.1f s after registration"
+                        % (P, Q, first_ping)))
+        if drop is None:
+            out.append(("pong_timeout", "ping_timeout=%d pong_timeout=%d: a silent client was not dropped within %d s of "
+                        "the PING" % (P, Q, Q + 5)))
+        elif not (Q - 0.6 <= drop <= Q + slack):
+            out.append(("pong_timeout", "ping_timeout=%d pong_timeout=%d: a silent client was dropped %.1f s after the "
+                        "PING it did not answer" % (P, Q, drop)))
+        else:
+            out.append(("ok", (P, Q, round(first_ping, 2), round(drop, 2))))
+    return out
